@@ -1371,8 +1371,10 @@ Definition acoherent v (s : ast) : Prop := coherent v (a_disk s) (a_env s) (mkRs
 Theorem mutate_keeps_coherent v s f o s' r : ren_ok v o ->
   acoherent v s -> adf_mutate v s f o = (s', r) -> acoherent v s'.
 Proof.
-  intros Hnr Hc H. destruct v; cbn [ren_ok] in Hnr.
-  all: revert Hnr Hc H; match goal with |- context [acoherent ?w s] => set (v := w) end; intros Hnr Hc H. unfold adf_mutate in H. destruct (negb (file_open s f)); [inversion H; subst; exact Hc|].
+  intros Hnr Hc H.
+  assert (Hren : forall p u nm, o = ORename p u nm -> v = Cur)
+    by (intros p u nm ->; destruct v; [exfalso; now apply (Hnr p u nm)|reflexivity]).
+  clear Hnr. unfold adf_mutate in H. destruct (negb (file_open s f)); [inversion H; subst; exact Hc|].
   destruct (disk_get (a_disk s) f) as [df|] eqn:Eg; [|inversion H; subst; exact Hc].
   destruct (step_table false (d_tab df) o) as [t' r0] eqn:Es.
   assert (Hkeep : forall c caps chunks, (c = None \/ (c = a_cache s /\ keeps_structure o = true)) ->
@@ -1384,14 +1386,15 @@ Proof.
             clear_if b c = None \/ (clear_if b c = a_cache s /\ keeps_structure o = true)).
   { intros b c -> Hk. destruct b; [now left|right; split; [reflexivity|assumption]]. }
   destruct r0; try (inversion H; subst; exact Hc);
-    destruct o; try (exfalso; now eapply Hnr); cbn in H;
+    destruct o; cbn in H;
     repeat match type of H with
            | context [add_child_effect ?a ?b ?c] => destruct (add_child_effect a b c)
            | context [find_node ?a ?b] => destruct (find_node a b)
            | context [if ?c then _ else _] => destruct c
            | context [match v with Old => _ | Cur => _ end] => destruct v
            end; inversion H; subst s'; unfold with_disk;
-    try (apply Hkeep; first [now left | right; split; reflexivity | apply Hci; reflexivity]).
+    try (apply Hkeep; first [now left | right; split; reflexivity | apply Hci; reflexivity]);
+    try (exfalso; discriminate (Hren _ _ _ eq_refl)).
 Qed.
 
 (* reads and look-ups keep it too (cache soundness), so: along EVERY history of reads, look-ups and mutations other than
@@ -1427,7 +1430,10 @@ Definition asane (s : ast) : Prop := cache_sane (a_disk s) (mkRs (a_cache s) [])
 Theorem mutate_keeps_sane v s f o s' r : ren_ok v o ->
   asane s -> adf_mutate v s f o = (s', r) -> asane s'.
 Proof.
-  intros Hnr Hc H. destruct v; cbn [ren_ok] in Hnr. unfold adf_mutate in H. destruct (negb (file_open s f)); [inversion H; subst; exact Hc|].
+  intros Hnr Hc H.
+  assert (Hren : forall p u nm, o = ORename p u nm -> v = Cur)
+    by (intros p u nm ->; destruct v; [exfalso; now apply (Hnr p u nm)|reflexivity]).
+  clear Hnr. unfold adf_mutate in H. destruct (negb (file_open s f)); [inversion H; subst; exact Hc|].
   destruct (disk_get (a_disk s) f) as [df|] eqn:Eg; [|inversion H; subst; exact Hc].
   destruct (step_table false (d_tab df) o) as [t' r0] eqn:Es.
   assert (Hkeep : forall c caps chunks, (c = None \/ (c = a_cache s /\ keeps_structure o = true)) ->
@@ -1438,14 +1444,15 @@ Proof.
             clear_if b c = None \/ (clear_if b c = a_cache s /\ keeps_structure o = true)).
   { intros b c -> Hk. destruct b; [now left|right; split; [reflexivity|assumption]]. }
   destruct r0; try (inversion H; subst; exact Hc);
-    destruct o; try (exfalso; now eapply Hnr); cbn in H;
+    destruct o; cbn in H;
     repeat match type of H with
            | context [add_child_effect ?a ?b ?c] => destruct (add_child_effect a b c)
            | context [find_node ?a ?b] => destruct (find_node a b)
            | context [if ?c then _ else _] => destruct c
            | context [match v with Old => _ | Cur => _ end] => destruct v
            end; inversion H; subst s'; unfold with_disk;
-    try (apply Hkeep; first [now left | right; split; reflexivity | apply Hci; reflexivity]).
+    try (apply Hkeep; first [now left | right; split; reflexivity | apply Hci; reflexivity]);
+    try (exfalso; discriminate (Hren _ _ _ eq_refl)).
 Qed.
 
 Theorem read_keeps_sane v fuel s i what : asane s -> asane (fst (adf_read v fuel s i what)).
@@ -1478,27 +1485,27 @@ Definition ev_step v (fuel : nat) (s : ast) (x : ev) : ast :=
   end.
 Definition run_evs v (fuel : nat) (s : ast) (l : list ev) : ast := fold_left (ev_step v fuel) l s.
 
-Lemma run_keeps v fuel : forall l s, Forall ev_ok v l -> asane s /\ acoherent v s -> asane (run_evs v fuel s l) /\ acoherent v (run_evs v fuel s l).
+Lemma run_keeps v fuel : forall l s, Forall (ev_ok v) l -> asane s /\ acoherent v s -> asane (run_evs v fuel s l) /\ acoherent v (run_evs v fuel s l).
 Proof.
-  induction l as [|x l IH]; intros s Hf Hs; [exact Hs|]. inversion Hf as [|? ? Hx Hl]; subst. cbn [run_evs v fold_left].
-  apply IH; [assumption|]. destruct Hs as [Hs Hc]. destruct x as [i w|i n|f o]; cbn [ev_step v].
+  induction l as [|x l IH]; intros s Hf Hs; [exact Hs|]. inversion Hf as [|? ? Hx Hl]; subst. cbn [run_evs fold_left].
+  apply IH; [assumption|]. destruct Hs as [Hs Hc]. destruct x as [i w|i n|f o]; cbn [ev_step].
   - split; [now apply (read_keeps_sane v)|now apply (read_keeps_coherent v)].
   - split; [now apply (lookup_keeps_sane v)|now apply (lookup_keeps_coherent v)].
   - cbn in Hx. destruct (adf_mutate v s f o) as [s' r] eqn:E. cbn [fst].
     split; [now apply (mutate_keeps_sane v s f o s' r)|now apply (mutate_keeps_coherent v s f o s' r)].
 Qed.
 
-(* CACHE COHERENT EXCEPT FOR RENAME: start from an empty cache, run ANY history of reads, look-ups and mutations that
-   contains no rename (the search environment fixed); then whatever is read through any link afterwards is an
-   attribute of the node that full, cache-free resolution reaches from that link *)
-Theorem cache_coherent_without_rename v fuel s0 l i what val :
-  a_cache s0 = None -> Forall ev_ok v l ->
+(* CACHE COHERENT: start from an empty cache and run ANY history of reads, look-ups and mutations -- for the current
+   code every history, for Old every history without a rename -- in a fixed search environment; then whatever is read
+   through any link afterwards is an attribute of the node that full, cache-free resolution reaches from that link *)
+Theorem cache_coherent_gen v fuel s0 l i what val :
+  a_cache s0 = None -> Forall (ev_ok v) l ->
   let s := run_evs v fuel s0 l in
   file_open s (fst i) = true -> snd (adf_read v fuel s i what) = AVal val -> what <> 0 -> what <> 4 -> what <> 5 ->
   exists t, resolves_to v (a_disk s) (a_env s) i (Ok t) /\ nonlink (a_disk s) t /\ val = node_attr (a_disk s) t what.
 Proof.
   intros H0 Hf s Ho Hr W0 W4 W5.
-  assert (Hinit : asane s0 /\ acoherent v s0) by (unfold asane, acoherent v, cache_sane, coherent v; cbn [r_cache]; rewrite H0; split; exact I).
+  assert (Hinit : asane s0 /\ acoherent v s0) by (unfold asane, acoherent, cache_sane, coherent; cbn [r_cache]; rewrite H0; split; exact I).
   destruct (run_keeps v fuel l s0 Hf Hinit) as [Hs Hc]. fold s in Hs, Hc.
   unfold adf_read in Hr. rewrite Ho in Hr. cbn [negb] in Hr.
   destruct (adf_get v true fuel (a_disk s) (a_env s) (mkRs (a_cache s) []) i what) as [x a] eqn:E. cbn [snd] in Hr. subst a.
@@ -1506,12 +1513,24 @@ Proof.
   exists t. auto.
 Qed.
 
-Example history_without_rename :
-  let h := [EMut fA (OCreate 0 1 bA); EMut fA (OCreate 1 2 bB); EMut fA (OLabel 2 [76; 98]);
-            EMut fA (OLink 0 3 [76] [] [47; 65; 47; 66]); ERead (fA, 3) 1; EMut fA (OCreate 1 4 bC); EMut fA (OLabel 2 [120])] in
-  Forall ev_ok v h /\
-  snd (adf_read 8 (run_evs v 8 (s_of (adf_open ast0 fA true)) h) (fA, 3) 1) = AVal (RBytes [120]).
+(* the current code: no hypothesis on the history at all *)
+Theorem cache_coherent fuel s0 l i what val :
+  a_cache s0 = None ->
+  let s := run_evs Cur fuel s0 l in
+  file_open s (fst i) = true -> snd (adf_read Cur fuel s i what) = AVal val -> what <> 0 -> what <> 4 -> what <> 5 ->
+  exists t, resolves_to Cur (a_disk s) (a_env s) i (Ok t) /\ nonlink (a_disk s) t /\ val = node_attr (a_disk s) t what.
 Proof.
-  cbv zeta. split; [|vm_compute; reflexivity].
-  repeat constructor; cbn; intros; discriminate.
+  intros H0. apply cache_coherent_gen; [assumption|]. clear. induction l as [|x l IH]; constructor; [|assumption].
+  destruct x; exact I.
 Qed.
+
+Theorem mutations_keep_cache_coherent s f o s' r : acoherent Cur s -> adf_mutate Cur s f o = (s', r) -> acoherent Cur s'.
+Proof. apply mutate_keeps_coherent. exact I. Qed.
+
+(* non-vacuity: a history WITH a rename between two reads through the link (Cur): the second read is the full resolution's *)
+Example history_with_rename :
+  let h := [EMut fA (OCreate 0 1 bA); EMut fA (OCreate 1 2 bB); EMut fA (OLabel 2 [76; 98]);
+            EMut fA (OLink 0 3 [76] [] [47; 65; 47; 66]); ERead (fA, 3) 1; EMut fA (ORename 1 2 bC);
+            EMut fA (OCreate 1 4 bB); EMut fA (OLabel 4 [120])] in
+  snd (adf_read Cur 100 (run_evs Cur 100 (s_of (adf_open ast0 fA true)) h) (fA, 3) 1) = AVal (RBytes [120]).
+Proof. vm_compute. reflexivity. Qed.
